@@ -51,6 +51,7 @@ pub fn info() -> PropertyInfo {
             "a step issued while the program runs: only the depth clause is asserted, with origin depth = depth of the last statement of the stepped thread the hook has seen when the command takes effect (what apply_action records); where it stops exactly is the code's arming rule and not asserted",
             "`L: stmt` is a Label statement around the inner one and the hook fires for both at the same depth (two statement boundaries, modelled like a compound statement; labels are added to the printed source, no JMP)",
             "hook search: DebugControl is driven through the public DebugHook::on_statement with the hook-call sequence of the reference trace (set_current_thread at every thread change); no interpreter underneath, so no transparency check there",
+            "snapshot clause (documented: DebugSnapshot = 'Snapshot of runtime state at a stop'; trust-debug's PausedStateView and the control endpoint read the stopped program from it and otherwise lock the runtime, which the parked cycle thread holds): at every stop notification DebugControl::snapshot() is Some, carries the time of the cycle in progress, and is the state of the program at that statement - compared with the reference state immediately before the statement for up to three depth-0 stops per lock-step script, with the marker storage of the producing hook call for every stop of the hook search; in the racy search only presence and time, and only when nobody but the controller resumes",
             "a user write queued while stopped in cycle k must have exactly the effect of the same whole-variable write applied between cycle k and k+1 of an undebugged run (documented contract of DebugControl::enqueue_*_write)",
             "no-wedge is judged by progress: a run counts as wedged when, while the controller waits for the next stop notification or the end of the run, the progress token (cycles completed, last statement location and call depth seen by the hook) does not move and the cycle thread is blocked (state S in /proc) at 150 consecutive samples 100 ms apart, or - last resort - the token does not move for 180 s (normal: < 5 ms); wedged twice in a row for one script = violation, once = inconclusive",
             "racy search: the OS scheduler chooses the interleaving; spin/yield/sleep delays perturb it but do not control it",
@@ -243,7 +244,7 @@ fn plan_lock(prog: &Program, trace: &Trace, cfg: &TaskCfg, script: &LockScript) 
     if script.reactions.iter().all(|r| r.write.is_none())
         || script.between.iter().any(|c| !c.is_empty())
         || !script.gates.is_empty()
-        || script.reactions.iter().any(|r| r.on_pause.is_some())
+        || script.reactions.iter().any(|r| r.on_pause.is_some() || r.then_pause)
         || script.entry
     {
         return Planned::Ready(Plan {
@@ -324,7 +325,7 @@ fn plan_lock(prog: &Program, trace: &Trace, cfg: &TaskCfg, script: &LockScript) 
                 .resume
                 .sel()
                 .and_then(|s| driver::sel_thread(&world, s, thread));
-            model.resume(r.resume, t, thread);
+            model.resume(r.resume, t, thread, false);
         }
         if !added {
             break;
@@ -586,6 +587,10 @@ fn check_racy_inner(case: &Case, probe: &mut Probe, max_reps: u32) -> Result<(),
     probe.label(format!(
         "racy:pause_overtook_resume={}",
         bucket(stats.pause_at_same_position)
+    ));
+    probe.label(format!(
+        "racy:snapshot_checked={}",
+        bucket(stats.snapshot_checks)
     ));
     probe.label(format!(
         "racy:depth_clause_decided={}",
